@@ -79,9 +79,10 @@ type PolicySpec struct {
 }
 
 type ApSpec struct {
-	Kind string `json:"kind"` // appolicy | aplogconf
+	Kind string `json:"kind"` // appolicy | aplogconf | dospolicy | doslogconf | usersig
 	Key  string `json:"key"`
 	OK   bool   `json:"ok"`
+	Tag  string `json:"tag,omitempty"` // appolicy: signature-requirements tag; usersig: the tag it defines
 }
 
 type DosSpec struct {
@@ -99,6 +100,7 @@ type Cluster struct {
 	Ap       []ApSpec     `json:"ap"`
 	Dos      []DosSpec    `json:"dos"`
 	DosHops  []ApSpec     `json:"doshops"` // kind dospolicy | doslogconf: APDosPolicy / APDosLogConf objects
+	UserSigs []ApSpec     `json:"usersigs"` // kind usersig: APUserSig objects (event level only)
 }
 
 type PolRef struct {
@@ -724,7 +726,11 @@ func genCluster(r *vh.Rng, e Env) Cluster {
 		}
 		for _, n := range apNames {
 			if r.Chance(4, 5) {
-				c.Ap = append(c.Ap, ApSpec{Kind: "appolicy", Key: ns + "/" + n, OK: r.Chance(5, 6)})
+				a := ApSpec{Kind: "appolicy", Key: ns + "/" + n, OK: r.Chance(5, 6)}
+				if r.Chance(1, 3) {
+					a.Tag = pick(r, []string{"tag-a", "tag-b"}) // requires a user-defined signature with this tag
+				}
+				c.Ap = append(c.Ap, a)
 			}
 		}
 		for _, n := range logNames {
@@ -743,6 +749,13 @@ func genCluster(r *vh.Rng, e Env) Cluster {
 					d.Log = qref(r, dlogNames)
 				}
 				c.Dos = append(c.Dos, d)
+			}
+		}
+		if ns == "ns1" { // one APUserSig per tag (several per tag is the arbitration C19 is about)
+			for i, tag := range []string{"tag-a", "tag-b"} {
+				if r.Chance(5, 6) {
+					c.UserSigs = append(c.UserSigs, ApSpec{Kind: "usersig", Key: fmt.Sprintf("ns1/sig-%c", 'a'+i), OK: r.Chance(7, 8), Tag: tag})
+				}
 			}
 		}
 		for _, n := range dpolNames {
@@ -1747,7 +1760,7 @@ func mkSecretObj(key string, ok bool, gen int) *api_v1.Secret {
 		Type: api_v1.SecretTypeTLS, Data: map[string][]byte{"ok": []byte(v)}}
 }
 
-func mkApObj(kind, key string, ok bool, gen int) *unstructured.Unstructured {
+func mkApObj(kind, key string, ok bool, gen int, tag string) *unstructured.Unstructured {
 	ns, name := splitKey(key)
 	spec := map[string]interface{}{}
 	k := appprotect.PolicyGVK.Kind
@@ -1759,8 +1772,20 @@ func mkApObj(kind, key string, ok bool, gen int) *unstructured.Unstructured {
 		} else {
 			spec["broken"] = int64(gen)
 		}
+	} else if kind == "usersig" {
+		k = appprotect.UserSigGVK.Kind
+		if ok {
+			spec["signatures"] = []interface{}{map[string]interface{}{"name": name, "gen": int64(gen)}}
+		} else {
+			spec["broken"] = int64(gen)
+		}
+		spec["tag"] = tag
 	} else if ok {
-		spec["policy"] = map[string]interface{}{"name": name, "gen": int64(gen)}
+		pol := map[string]interface{}{"name": name, "gen": int64(gen)}
+		if tag != "" {
+			pol["signature-requirements"] = []interface{}{map[string]interface{}{"tag": tag}}
+		}
+		spec["policy"] = pol
 	} else {
 		spec["broken"] = int64(gen)
 	}
@@ -1814,8 +1839,18 @@ func buildFull(c *Case) (*world, error) {
 		_, err := w.v.Deliver(kind, "add", nil, obj)
 		return err
 	}
+	for _, u := range c.Cluster.UserSigs {
+		o := mkApObj("usersig", u.Key, u.OK, 0, u.Tag)
+		_ = w.v.ApSig.Add(o)
+		if c.Env.AP {
+			if err := deliver("usersig", o); err != nil {
+				return nil, err
+			}
+		}
+	}
+	w.v.Drain()
 	for _, a := range c.Cluster.Ap {
-		o := mkApObj(a.Kind, a.Key, a.OK, 0)
+		o := mkApObj(a.Kind, a.Key, a.OK, 0, a.Tag)
 		if a.Kind == "appolicy" {
 			_ = w.v.ApPol.Add(o)
 		} else {
@@ -1932,23 +1967,23 @@ func (w *world) storeEvent(kind, key, op string) (string, interface{}, interface
 		if kind == "aplogconf" {
 			st = w.v.ApLog
 		}
-		ok := true
+		ok, tag := true, ""
 		for _, a := range w.c.Cluster.Ap {
 			if a.Kind == kind && a.Key == key {
-				ok = a.OK
+				ok, tag = a.OK, a.Tag
 			}
 		}
 		switch op {
 		case "add":
-			cur := mkApObj(kind, key, true, g)
+			cur := mkApObj(kind, key, true, g, tag)
 			_ = st.Add(cur)
 			return "add", nil, cur, true
 		case "update":
-			old, cur := mkApObj(kind, key, ok, 0), mkApObj(kind, key, after(ok), g)
+			old, cur := mkApObj(kind, key, ok, 0, tag), mkApObj(kind, key, after(ok), g, tag)
 			_ = st.Update(cur)
 			return "update", old, cur, true
 		case "delete":
-			old := mkApObj(kind, key, ok, 0)
+			old := mkApObj(kind, key, ok, 0, tag)
 			_ = st.Delete(old)
 			return "delete", old, nil, true
 		}
@@ -2038,6 +2073,30 @@ func (w *world) storeEvent(kind, key, op string) (string, interface{}, interface
 		case "delete":
 			old := mkDos(spec, 0)
 			_ = w.v.DosProt.Delete(old)
+			return "delete", old, nil, true
+		}
+	case "usersig":
+		ok, tag := true, "tag-a"
+		for _, u := range w.c.Cluster.UserSigs {
+			if u.Key == key {
+				ok, tag = u.OK, u.Tag
+			}
+		}
+		if name == "sig-b" {
+			tag = "tag-b"
+		}
+		switch op {
+		case "add":
+			cur := mkApObj(kind, key, true, g, tag)
+			_ = w.v.ApSig.Add(cur)
+			return "add", nil, cur, true
+		case "update":
+			old, cur := mkApObj(kind, key, ok, 0, tag), mkApObj(kind, key, after(ok), g, tag)
+			_ = w.v.ApSig.Update(cur)
+			return "update", old, cur, true
+		case "delete":
+			old := mkApObj(kind, key, ok, 0, tag)
+			_ = w.v.ApSig.Delete(old)
 			return "delete", old, nil, true
 		}
 	case "dospolicy", "doslogconf":
@@ -2279,6 +2338,30 @@ func runEvents(c *Case, resKey string, revs []Rev) []EvObs {
 		}
 		for _, op := range ops {
 			out = append(out, oneEvent(c, resKey, r.Kind, key, op))
+		}
+	}
+	// APUserSig -> APPolicy (signature requirements): not in the model (that store is C19's subject); the events are
+	// driven and judged by the same model-free observable (is the file what a regeneration produces?)
+	apDep := false
+	for _, r := range revs {
+		apDep = apDep || (r.Kind == "appolicy" && r.Dep)
+	}
+	if c.Env.AP && apDep {
+		have := map[string]bool{}
+		for _, u := range c.Cluster.UserSigs {
+			have[u.Key] = true
+			ops := []string{"update", "delete", "update-invalid"}
+			if !u.OK {
+				ops = []string{"update", "delete", "update-valid"}
+			}
+			for _, op := range ops {
+				out = append(out, oneEvent(c, resKey, "usersig", u.Key, op))
+			}
+		}
+		for _, k := range []string{"ns1/sig-a", "ns1/sig-b"} {
+			if !have[k] {
+				out = append(out, oneEvent(c, resKey, "usersig", k, "add"))
+			}
 		}
 	}
 	return out
